@@ -42,6 +42,13 @@ NAMES = ["eth0", "eth1", "br"]
 HWS = ["0000000000a1", "0000000000a2"]
 CFGS = [[0, 0, 0, 0, 0, 0], [1, 1, 0x2a0, 0xfff, 0xfff, 0]]
 Q_FULL = {"nos": NOS + [7], "names": NAMES + ["ghost"], "hws": HWS + ["0000000000ff"]}
+# values that code could mistake for "nothing" or treat specially: port 0, OFPP_MAX, OFPP_LOCAL, OFPP_NONE; the empty name, a
+# name that reads like a number, a name that fills all 16 bytes (no terminator), a non-ASCII name; the all-zero and broadcast address
+NOS_RARE = [0, 1, 0xff00, 0xfffe, 0xffff]
+NAMES_RARE = ["", "1", "sixteen-bytes-xx", "p\xe9"]
+HWS_RARE = ["000000000000", "ffffffffffff"]
+Q_RARE = {"nos": NOS_RARE + [2], "names": NAMES_RARE + ["0"], "hws": HWS_RARE + ["0000000000a1"]}
+XIDS_RARE = [0, 1, 255, 256, 257, 70000, 70001, 0x7fffffff, 0x80000000, 0xffffffff]
 
 
 class Sock:
@@ -197,8 +204,7 @@ class C17(Check):
             common.AnchorCoverage = ImportAwareCoverage
         from pox.lib.addresses import EthAddr
         self.of_01, self.of, self.EthAddr = of_01, of, EthAddr
-        self._cur = None
-        self._nexus_ev = []
+        self._sessions, self._reading = {}, None
         nexus = self.core.openflow
         for name in STATS_EVENTS:
             nexus.addListenerByName(name, self._on_nexus)
@@ -206,8 +212,9 @@ class C17(Check):
         self._dflt = of.ofp_phy_port()                     # canonical [0, 0, 0, 0]
 
     def _on_nexus(self, ev):
-        if ev.connection is self._cur:
-            self._nexus_ev.append(self._canon_event(ev))
+        s = self._sessions.get(id(ev.connection))
+        if s is not None and s.con is ev.connection:
+            s.nexus.append((s.midx(), self._canon_event(ev, s.con)))
 
     # ------------------------------------------------------------------ building bytes
     def _port(self, p):
@@ -223,7 +230,9 @@ class C17(Check):
             return of.ofp_features_reply(datapath_id=m.get("dpid", 0x17), ports=[self._port(p) for p in m["ports"]]).pack()
         if m["t"] == "stats":
             body = b"".join(bytes.fromhex(h) for h in m["body"])
-            return of.ofp_stats_reply(xid=m["xid"], type=m["type"], flags=1 if m["more"] else 0, body=body).pack()
+            flags = m.get("flags", 1 if m["more"] else 0)
+            assert bool(flags & 1) == bool(m["more"])
+            return of.ofp_stats_reply(xid=m["xid"], type=m["type"], flags=flags, body=body).pack()
         return bytes.fromhex(m["hex"])
 
     def _entry(self, rng, t):
@@ -325,8 +334,50 @@ class C17(Check):
             cases.append({"features": feat, "early": [], "msgs": [a1, d, a2], "q": q})
             cases.append({"features": feat, "early": [], "msgs": [a1, dict(d, more=True), a2, d], "q": q})
         # --- every port-status sequence to length 3 over 2 numbers x 2 names x 2 addresses (ADD/MODIFY alternate) + DELETE
-        for L in (1, 2, 3):
+        for L in (1, 2):
             cases += list(self._small_scope(L))
+        cases += random.Random(173).sample(list(self._small_scope(3)), 350)        # all of length 3 and 4: thorough tier
+        # --- HARDENING 3/6: every value of the reason byte; every stats type selector 0..17 + vendor, final and with REPLY_MORE; other flag bits
+        for base in range(0, 256, 32):
+            cases.append(ports_case(feat, [{"t": "status", "reason": r, "port": pd(1 + r % 3, "abc"[r % 3], HWS[r % 2], r % 2)} for r in range(base, base + 32)]))
+        for t in list(range(0, 18)) + [0xffff]:
+            body = E[t][:2] if t in MULTIPART else (E[t][:1] if t in HANDLED else ["00112233aabbccdd"])
+            for more in (False, True):
+                cases.append({"features": feat, "early": [], "msgs": [a1, {"t": "stats", "xid": 7, "type": t, "more": more, "body": body}, b1, a2], "q": q})
+        for fl in (2, 3, 0x8000, 0x8001, 0xfffe, 0xffff):
+            cases.append({"features": feat, "early": [], "q": q, "msgs": [dict(a1, flags=fl | 1), dict(b1, flags=fl & 0xfffe), dict(a2, flags=fl & 0xfffe)]})
+        # --- HARDENING 3: xids 0, around 256, around 2^31, 2^32-1 (two requests of one type whose xids are close together / far apart)
+        for x1, x2 in ((0, 1), (0, 256), (256, 257), (257, 257 + 256), (70000, 70001), (0x7fffffff, 0x80000000), (0xffffffff, 0), (1, 1 + (1 << 16)), (5, 5 + (1 << 30))):
+            for t1, t2 in ((1, 1), (4, 5), (5, 1)):
+                A = self.reply(x1, t1, E[t1][:3], [1, 1, 1]); B = self.reply(x2, t2, E[t2][3:6], [2, 1])
+                cases.append({"features": feat, "early": [], "q": q, "msgs": [A[0], B[0], A[1], B[1], A[2]]})
+                cases.append({"features": feat, "early": [], "q": q, "msgs": [B[0], A[0], A[1], A[2], B[1]]})
+        # --- HARDENING 3: port 0, OFPP_MAX, OFPP_LOCAL, OFPP_NONE; empty / numeric / 16-byte / non-ASCII names; zero and broadcast address
+        rf = [pd(0, "", HWS_RARE[0]), pd(0xfffe, "1", HWS_RARE[1]), pd(0xff00, NAMES_RARE[2], HWS_RARE[0])]
+        cases.append(ports_case(rf, [{"t": "status", "reason": 1, "port": rf[0]}, {"t": "status", "reason": 0, "port": pd(0, NAMES_RARE[3], HWS_RARE[1])},
+                                     {"t": "status", "reason": 2, "port": pd(0xffff, "", HWS_RARE[0])}, {"t": "status", "reason": 1, "port": rf[1]},
+                                     {"t": "status", "reason": 0, "port": pd(0, "", HWS_RARE[0])}, {"t": "status", "reason": 1, "port": pd(0xffff, "", HWS_RARE[0])}], qq=Q_RARE))
+        cases.append(ports_case([], [{"t": "status", "reason": 0, "port": rf[0]}, {"t": "status", "reason": 2, "port": rf[0]}, {"t": "status", "reason": 1, "port": rf[0]}], qq=Q_RARE))
+        cases.append(ports_case([rf[0]], [{"t": "status", "reason": 1, "port": rf[0]}, {"t": "status", "reason": 0, "port": rf[0]}], early=[{"t": "status", "reason": 2, "port": pd(0, "1", HWS_RARE[1])}], qq=Q_RARE))
+        # --- HARDENING 5: several messages in one read, the odd one first / in the middle / last
+        st = [{"t": "status", "reason": 2, "port": ren, "snap": True}, {"t": "status", "reason": 1, "port": feat[1], "snap": True}]
+        oth = {"t": "other", "hex": self.of.ofp_echo_request(xid=3, body=b"x").pack().hex()}
+        for msgs in ([a1, b1, a2] + st, st[:1] + [a1, b1, a2] + st[1:], st + [a1, b1, a2], [oth, a1, st[0], b1, oth, a2, st[1]],
+                     [a1, {"t": "features", "ports": [feat[1]], "snap": True}, a2, st[0]]):
+            for sizes in ([len(msgs)], [1, len(msgs) - 1], [len(msgs) - 1, 1], [2] * (len(msgs) // 2) + [1] * (len(msgs) % 2)):
+                cases.append({"features": feat, "early": [], "q": q, "msgs": msgs, "groups": sizes})
+        # --- HARDENING 1: two connections alive at the same time with the same port numbers / names and the same request ids
+        other_feat = [pd(1, "b", HWS[1], 1), pd(3, "a", HWS[0])]
+        peer = {"features": other_feat, "early": [], "q": q,
+                "msgs": [dict(a1, body=E[1][6:8]), {"t": "status", "reason": 1, "port": other_feat[0], "snap": True}, dict(b1, body=E[4][5:6]),
+                         {"t": "status", "reason": 0, "port": pd(2, "c", HWS[0]), "snap": True}, dict(a2, body=E[1][8:9])]}
+        cases.append({"features": feat, "early": [], "q": q, "peer": peer,
+                      "msgs": [a1, {"t": "status", "reason": 2, "port": ren, "snap": True}, b1, a2, {"t": "status", "reason": 1, "port": feat[1], "snap": True}]})
+        cases.append({"features": feat, "early": [], "q": q, "peer": dict(peer, msgs=peer["msgs"][:1]), "msgs": [dict(a2, body=E[1][1:2])]})
+        cases.append({"features": [], "early": [], "q": q, "peer": {"features": feat, "early": [], "q": q, "msgs": []}, "msgs": [{"t": "status", "reason": 0, "port": pd(3, "z", HWS[0]), "snap": True}]})
+        # --- HARDENING 7: listeners that raise do not disturb the assembly or the view
+        cases.append({"features": feat, "early": [{"t": "status", "reason": 1, "port": feat[1]}], "q": q, "hostile": True,
+                      "msgs": [a1, {"t": "status", "reason": 2, "port": ren, "snap": True}, b1, a2, b1]})
         # --- every partition of a body of n <= 5 entries into 1..6 non-empty parts, 4 types; plus empty parts and empty bodies
         for t in MULTIPART:
             for n in range(0, 6):
@@ -358,12 +409,14 @@ class C17(Check):
             yield {"features": feat, "early": [], "msgs": msgs, "q": q}
 
     # ------------------------------------------------------------------ generators
+    _U = (NOS, NAMES, HWS)
+
     def _rand_port(self, rng):
-        return pd(rng.choice(NOS), rng.choice(NAMES), rng.choice(HWS), rng.choice([0, 0, 1]))
+        return pd(rng.choice(self._U[0]), rng.choice(self._U[1]), rng.choice(self._U[2]), rng.choice([0, 0, 1]))
 
     def _rand_features(self, rng):
-        nos = rng.sample(NOS, rng.choice([0, 1, 2, 2, 3, 4]))
-        f = [pd(n, rng.choice(NAMES), rng.choice(HWS), rng.choice([0, 1])) for n in nos]
+        nos = rng.sample(self._U[0], rng.choice([0, 1, 2, 2, 3, 4]))
+        f = [pd(n, rng.choice(self._U[1]), rng.choice(self._U[2]), rng.choice([0, 1])) for n in nos]
         if f and rng.random() < 0.1: f.append(dict(f[0]))                 # an identical duplicate entry
         return f
 
@@ -387,7 +440,7 @@ class C17(Check):
         streams, used = [], set()
         for _ in range(rng.choice([1, 1, 2, 2, 2, 3])):
             for _try in range(20):
-                xid = rng.choice([1, 2, 3, 0xffffffff, rng.randint(0, 0xffffffff)])
+                xid = rng.choice([1, 2, 3, 0xffffffff, rng.randint(0, 0xffffffff), rng.choice(XIDS_RARE)])
                 t = rng.choice([1, 3, 4, 5, 1, 3, 4, 5, 0, 2])
                 if (xid, t) not in used: break
             used.add((xid, t))
@@ -407,7 +460,41 @@ class C17(Check):
             streams.append(stream)
         return streams
 
-    def _case(self, rng, kind):
+    def _case(self, rng, kind, mode=None):
+        """mode: None | "rare" (rare port numbers / names / addresses) | "groups" (several messages per read) | "peer" (a second
+        connection alive at the same time, same numbers / names / request ids) | "hostile" (listeners that raise)"""
+        if mode == "rare":
+            self._U = (NOS_RARE, NAMES_RARE, HWS_RARE)
+            try:
+                c = self._case(rng, kind); c["q"] = Q_RARE
+                if c.get("peer"): c["peer"]["q"] = Q_RARE
+                return c
+            finally:
+                self._U = (NOS, NAMES, HWS)
+        if mode == "peer":
+            c = self._case(rng, kind); p = self._case(rng, rng.choice(["ports", "stats"]))
+            akeys = sorted(set((m["xid"], m["type"]) for m in c["msgs"] if m["t"] == "stats"))
+            pkeys = sorted(set((m["xid"], m["type"]) for m in p["msgs"] if m["t"] == "stats"))
+            ren, used = {}, set()
+            for k in pkeys:                                        # the peer's requests carry this connection's xids (same type first)
+                cand = [x for x, t in akeys if t == k[1]] + [x for x, t in akeys]
+                for x in cand:
+                    if (x, k[1]) not in used and (x, k[1]) not in pkeys:
+                        ren[k] = x; used.add((x, k[1])); break
+            for m in p["msgs"]:
+                if m["t"] == "stats" and (m["xid"], m["type"]) in ren: m["xid"] = ren[(m["xid"], m["type"])]
+            c["peer"] = p
+            return c
+        if mode == "groups":
+            c = self._case(rng, kind)
+            sizes, left = [], len(c["msgs"])
+            while left:
+                n = min(left, rng.choice([1, 2, 2, 3, 4])); sizes.append(n); left -= n
+            c["groups"] = sizes
+            return c
+        if mode == "hostile":
+            c = self._case(rng, kind); c["hostile"] = True
+            return c
         feat = self._rand_features(rng)
         early = [dict(self._rand_status(rng), snap=False) for _ in range(rng.choice([0, 0, 0, 1, 2]))]
         pre = [dict(self._rand_status(rng), snap=False) for _ in range(rng.choice([0, 0, 0, 0, 1, 2]))]
@@ -434,10 +521,12 @@ class C17(Check):
         return {"features": feat, "pre": pre, "early": early, "msgs": msgs, "q": Q_FULL}
 
     def generate(self, rng, tier):
-        n = 1300 if tier == "quick" else 12000
+        n = 1100 if tier == "quick" else 10000
         for i in range(n):
-            yield self._case(rng, "ports" if i % 2 == 0 else ("stats" if i % 10 != 9 else "weird"))
+            mode = [None, None, "rare", "groups", "peer", None, "rare", "groups", "peer", "hostile"][(i // 2) % 10]
+            yield self._case(rng, "ports" if i % 2 == 0 else ("stats" if i % 10 != 9 else "weird"), mode)
         if tier == "thorough":
+            for c in self._small_scope(3): yield c
             for c in self._small_scope(4): yield c
             E = self._fixed_entries()
             feat = [pd(1, "a", HWS[0])]
@@ -452,7 +541,7 @@ class C17(Check):
     def search_cases(self, rng, tier):
         for c in self.corpus()[:40]: yield c
         while True:
-            yield self._case(rng, rng.choice(["ports", "stats"]))
+            yield self._case(rng, rng.choice(["ports", "stats"]), rng.choice([None, "rare", "groups", "peer"]))
 
     # ------------------------------------------------------------------ implementation
     def _canon_port(self, p):
@@ -513,91 +602,202 @@ class C17(Check):
         canon = lambda g: self._canon_port(g) if g is not None else "IndexError"
         o["get"] = [canon(coll.get(k)) for k in q["nos"]]
         o["get_dflt"] = [canon(coll.get(k, self._dflt)) for k in q["nos"]]
+        kw = [canon(coll.get(k, default=self._dflt)) for k in q["nos"]]                   # keyword form of the default
+        again = [self._look(coll, k) for k in q["nos"]]                                  # the same lookup again, after get()/has_key()
+        shw = [self._look(coll, self.EthAddr(":".join(h[i:i + 2] for i in range(0, 12, 2)))) for h in q["hws"]]   # EthAddr from text
+        if kw != o["get_dflt"] or again != o["no"] or shw != o["hw"]:
+            o.setdefault("extra", {})["conventions"] = [kw != o["get_dflt"], again != o["no"], shw != o["hw"]]
         o["has_key"] = [coll.has_key(k) for k in q["nos"]]
         try:
             c = coll.copy()
             if c is None: o["copy"] = None                 # the method ends without `return r` (candidate C17-1)
             else:
                 o["copy"] = {"keys": sorted(c.keys()), "len": len(c), "no": [self._look(c, k) for k in q["nos"]],
-                             "masks": sorted(c._masks), "values": sorted(self._canon_port(p) for p in c.values())}
-                if c._chain is not None: o["copy"]["chain"] = True
+                             "masks": sorted(getattr(c, "_masks", ())), "values": sorted(self._canon_port(p) for p in c.values())}
+                if getattr(c, "_chain", None) is not None: o["copy"]["chain"] = True
         except Exception as e:
             o["copy"] = type(e).__name__
         return o
 
-    def _canon_event(self, ev):
+    def _canon_event(self, ev, con):
         stats = ev.stats if isinstance(ev.stats, list) else [ev.stats]
         parts = ev.ofp if isinstance(ev.ofp, list) else [ev.ofp]
         o = {"cls": type(ev).__name__, "stats": [(s.pack() if hasattr(s, "pack") else bytes(s)).hex() for s in stats],
              "xids": [p.xid for p in parts], "listlike": isinstance(ev.stats, list), "ofp_listlike": isinstance(ev.ofp, list)}
-        if ev.dpid != ev.connection.dpid or ev.connection is not self._cur: o["dpid"] = ev.dpid
+        if ev.dpid != con.dpid or ev.connection is not con: o["dpid"] = ev.dpid
         return o
 
-    def _feed(self, con, sock, data):
-        while data:
-            sock.chunks.append(data[:2048]); data = data[2048:]
-            try:
-                r = con.read()
-            except Exception as e:                     # OpenFlow_01_Task closes a connection whose read() raises
-                self._escaped = type(e).__name__; return False
-            if r is False: return False
-        return True
-
-    def impl(self, case):
-        of, of_01 = self.of, self.of_01
-        sock = Sock()
-        self._escaped = None
-        con = of_01.Connection(sock)
-        self._cur = con
-        events, excs = [], []
-        raws = []
-        for name in STATS_EVENTS:
-            con.addListenerByName(name, lambda ev: events.append(self._canon_event(ev)))
-        con.addListenerByName("RawStatsReply", lambda ev: raws.append(
-            [ev.ofp.xid, ev.ofp.type, not ev.ofp.is_last_reply] + ([] if ev.dpid == con.dpid and ev.connection is con else ["dpid"])))
-        real_exc = of_01.log.exception
-        of_01.log.exception = lambda *a, **k: excs.append(sys.exc_info()[0].__name__ if sys.exc_info()[0] else "?")
-        try:
-            ok = self._feed(con, sock, of.ofp_hello(xid=1).pack())
-            for m in case.get("pre", []):                                  # before the features reply: dropped by the handshake handler
-                ok = ok and self._feed(con, sock, self._msg_bytes(m))
-            ok = ok and self._feed(con, sock, self._msg_bytes({"t": "features", "ports": case["features"]}))
-            for m in case.get("early", []):
-                ok = ok and self._feed(con, sock, self._msg_bytes(m))
-            hs_snaps = {"up": [], "fr": [], "replay": []}
-            hs_done = [False]
+    class _Session:
+        """one connection of a case: scripted socket, recorders, handshake, message groups (several messages per read)"""
+        def __init__(self, chk, case, dpid):
+            self.chk, self.case, self.dpid = chk, case, dpid
+            of_01 = chk.of_01
+            self.sock = Sock()
+            self.con = con = of_01.Connection(self.sock)
+            chk._sessions[id(con)] = self
+            self.seq = 0                      # messages unpacked so far on this connection
+            self.base = None                  # value of seq when the connected phase starts
+            self.events, self.raws, self.excs, self.nexus, self.at_event, self.live = [], [], [], [], [], []
+            self.hs = {"up": [], "fr": [], "replay": []}
+            self.escaped = None
+            def wrap(u):
+                if u is None: return None
+                def w(raw, offset=0):
+                    r = u(raw, offset); self.seq += 1; return r
+                return w
+            con.unpackers = [wrap(u) for u in con.unpackers]
+            for name in STATS_EVENTS:
+                con.addListenerByName(name, self._on_stats)
+            con.addListenerByName("RawStatsReply", lambda ev: self.raws.append((self.midx(),
+                [ev.ofp.xid, ev.ofp.type, not ev.ofp.is_last_reply] + ([] if ev.dpid == con.dpid and ev.connection is con else ["dpid"]))))
             has_early = bool(case.get("early"))
-            con.addListenerByName("ConnectionUp", lambda ev: hs_snaps["up"].append(self._snap(con, case["q"])))
-            con.addListenerByName("FeaturesReceived", lambda ev: None if hs_done[0] else hs_snaps["fr"].append(self._snap(con, case["q"]) if has_early else None))
-            con.addListenerByName("PortStatus", lambda ev: None if hs_done[0] else hs_snaps["replay"].append(self._snap(con, case["q"])))
-            bar, b = None, sock.sent
+            q = case["q"]
+            con.addListenerByName("ConnectionUp", lambda ev: self.hs["up"].append(chk._snap(con, q)))
+            con.addListenerByName("FeaturesReceived", lambda ev: None if self.base is not None else self.hs["fr"].append(chk._snap(con, q) if has_early else None))
+            con.addListenerByName("PortStatus", self._on_port_status)
+            if case.get("hostile"):                                  # listeners that raise: registered after the recorders
+                def boom(ev): raise RuntimeError("listener failure")
+                for name in list(STATS_EVENTS) + ["PortStatus", "RawStatsReply"]:
+                    con.addListenerByName(name, boom)
+
+        def midx(self): return -1 if self.base is None else self.seq - self.base - 1
+
+        def _on_stats(self, ev):
+            c = self.chk._canon_event(ev, self.con)
+            self.events.append((self.midx(), c))
+            self.live.append((ev, dict(c)))
+
+        def _on_port_status(self, ev):
+            chk, con = self.chk, self.con
+            if self.base is None:
+                self.hs["replay"].append(chk._snap(con, self.case["q"]))
+            else:                                                    # what a PortStatus handler sees: the view with this notification applied
+                self.at_event.append((self.midx(), {"keys": sorted(con.ports.keys()), "no": ev.ofp.desc.port_no,
+                                                    "look": chk._look(con.ports, ev.ofp.desc.port_no), "reason": ev.ofp.reason}))
+
+        def feed(self, data):
+            chk = self.chk
+            chk._reading = self
+            try:
+                while data:
+                    self.sock.chunks.append(data[:2048]); data = data[2048:]
+                    try:
+                        r = self.con.read()
+                    except Exception as e:             # OpenFlow_01_Task closes a connection whose read() raises
+                        self.escaped = type(e).__name__; return False
+                    if r is False: return False
+                return True
+            finally:
+                chk._reading = None
+
+        def handshake(self):
+            chk, case, of = self.chk, self.case, self.chk.of
+            ok = self.feed(of.ofp_hello(xid=1).pack())
+            for m in case.get("pre", []):                                  # before the features reply: dropped by the handshake handler
+                ok = ok and self.feed(chk._msg_bytes(m))
+            ok = ok and self.feed(chk._msg_bytes({"t": "features", "ports": case["features"], "dpid": self.dpid}))
+            for m in case.get("early", []):
+                ok = ok and self.feed(chk._msg_bytes(m))
+            bar, b = None, self.sock.sent
             while len(b) >= 8:
                 l = struct.unpack("!H", b[2:4])[0]
+                if l < 8: break
                 if b[1] == of.OFPT_BARRIER_REQUEST: bar = struct.unpack("!L", b[4:8])[0]
                 b = b[l:]
-            if not ok or bar is None: return {"handshake": "no barrier request / connection closed"}
-            self._feed(con, sock, of.ofp_barrier_reply(xid=bar).pack())
-            hs_done[0] = True
-            if con.connect_time is None or con.handlers is not of_01._default_handlers.handlers:
-                return {"handshake": "connection did not come up"}
-            snaps, outs = [self._snap(con, case["q"])], []
-            for m in case["msgs"]:
-                del events[:], excs[:], self._nexus_ev[:], raws[:]
-                alive = self._feed(con, sock, self._msg_bytes(m))
-                o = {"events": list(events), "raw": list(raws)}
-                if excs: o["exc"] = list(excs)
-                if self._nexus_ev != events: o["nexus"] = list(self._nexus_ev)
-                if not alive: o["closed"] = getattr(self, "_escaped", None) or True
+            if not ok or bar is None: return "no barrier request / connection closed"
+            self.feed(of.ofp_barrier_reply(xid=bar).pack())
+            if len(self.hs["up"]) != 1 and self.con.connect_time is None: return "connection did not come up"
+            self.base = self.seq
+            self.snaps = [chk._snap(self.con, case["q"])]
+            self.groups = self._groups()
+            self.alive = True
+            return None
+
+        def _groups(self):
+            msgs, sizes = self.case["msgs"], self.case.get("groups")
+            if not sizes or sum(sizes) != len(msgs): sizes = [1] * len(msgs)
+            out, i = [], 0
+            for n in sizes:
+                out.append(list(range(i, i + n))); i += n
+            return [g for g in out if g]
+
+        def step(self):
+            """feed the next group (several messages in one byte string); returns False when nothing is left"""
+            if not self.groups or not self.alive: return False
+            g = self.groups.pop(0)
+            msgs = self.case["msgs"]
+            self.alive = self.feed(b"".join(self.chk._msg_bytes(msgs[i]) for i in g))
+            self.fed = g[-1]
+            if self.alive and msgs[g[-1]].get("snap"): self.snaps.append(self.chk._snap(self.con, self.case["q"]))
+            return True
+
+        def result(self):
+            n = len(self.case["msgs"])
+            last = getattr(self, "fed", -1)
+            outs = []
+            for i in range(last + 1):
+                o = {"events": [e for j, e in self.events if j == i], "raw": [r for j, r in self.raws if j == i]}
+                ex = [x for j, x in self.excs if j == i]
+                if ex: o["exc"] = ex
+                nx = [e for j, e in self.nexus if j == i]
+                if nx != o["events"]: o["nexus"] = nx
+                ae = [a for j, a in self.at_event if j == i]
+                if ae: o["at_event"] = ae
                 outs.append(o)
-                if not alive: break
-                if m.get("snap"): snaps.append(self._snap(con, case["q"]))
-            return {"handshake": "up", "snaps": snaps, "outs": outs, "buf": len(con.buf),
-                    "up_snaps": hs_snaps["up"], "fr_snaps": hs_snaps["fr"], "replay_snaps": hs_snaps["replay"]}
+            if not self.alive and outs: outs[-1]["closed"] = self.escaped or True
+            stray = [e for j, e in self.events if not (0 <= j <= last)] + [r for j, r in self.raws if not (0 <= j <= last)]
+            res = {"handshake": "up", "snaps": self.snaps, "outs": outs, "buf": len(self.con.buf),
+                   "up_snaps": self.hs["up"], "fr_snaps": self.hs["fr"], "replay_snaps": self.hs["replay"]}
+            if stray: res["stray"] = stray[:3]
+            # events handed to listeners must not change afterwards (a list reused for the next event, say)
+            for ev, c in self.live:
+                now = self.chk._canon_event(ev, self.con)
+                if now != c: res["mutated_later"] = [c["cls"], c["xids"]]; break
+            return res
+
+        def close(self):
+            self.chk._sessions.pop(id(self.con), None)
+            try: self.con.ofnexus._disconnect(self.con.dpid)
+            except Exception: pass
+
+    def impl(self, case):
+        of_01 = self.of_01
+        real_exc = of_01.log.exception
+        def on_exc(*a, **k):
+            s = self._reading
+            if s is not None: s.excs.append((s.midx(), sys.exc_info()[0].__name__ if sys.exc_info()[0] else "?"))
+        of_01.log.exception = on_exc
+        sess = []
+        try:
+            a = self._Session(self, case, 0x17); sess.append(a)
+            h = a.handshake()
+            if h: return {"handshake": h}
+            b = None
+            if case.get("peer"):                               # a second connection, alive at the same time: nothing may leak across
+                b = self._Session(self, case["peer"], 0x27); sess.append(b)
+                h = b.handshake()
+                if h: return {"handshake": "peer: " + h}
+            more = True
+            while more:
+                more = a.step()
+                if b is not None: more = b.step() or more
+            res = a.result()
+            if b is not None: res["peer"] = b.result()
+            return res
         finally:
             of_01.log.exception = real_exc
-            self._cur = None
-            try: con.ofnexus._disconnect(con.dpid)
-            except Exception: pass
+            for s in sess: s.close()
+
+    @staticmethod
+    def _snap_flags(case):
+        """a snapshot is taken after a message that asks for one and is the last of its read group"""
+        msgs, sizes = case["msgs"], case.get("groups")
+        if not sizes or sum(sizes) != len(msgs): sizes = [1] * len(msgs)
+        last, i = set(), 0
+        for n in sizes:
+            i += n
+            if n: last.add(i - 1)
+        return [bool(m.get("snap")) and k in last for k, m in enumerate(msgs)]
 
     # ------------------------------------------------------------------ model
     def _ids(self, case):
@@ -623,12 +823,13 @@ class C17(Check):
         seen0 = seen(next(snaps))
         up = obs["up_snaps"][0] if len(obs["up_snaps"]) == 1 else None
         msgs = []
-        for m in case["msgs"]:
+        flags = self._snap_flags(case)
+        for k, m in enumerate(case["msgs"]):
             if m["t"] == "status": mm = {"t": "status", "reason": m["reason"], "port": pd_canon(m["port"])}
             elif m["t"] == "features": mm = {"t": "features", "ports": [pd_canon(p) for p in m["ports"]]}
             elif m["t"] == "stats": mm = {"t": "stats", "xid": m["xid"], "type": m["type"], "more": m["more"], "body": [ids[h] for h in m["body"]]}
             else: mm = {"t": "other"}
-            if m.get("snap"): mm["seen"] = seen(next(snaps))
+            if flags[k]: mm["seen"] = seen(next(snaps))
             msgs.append(mm)
         # copy() is compared when the implementation returns a collection (the unrepaired method returns None: candidate C17-1)
         req = {"q": mq, "hs": hs, "seen0": seen0, "msgs": msgs, "copy": all(sn.get("copy") is not None for sn in obs["snaps"]),
@@ -690,9 +891,10 @@ class C17(Check):
                 if isin != bool(have): return "ports:%s:contains-%s: %r in %s = %s" % (view, "stale" if isin else "missing", key, who, isin)
         return None
 
-    def oracle(self, case, obs):
+    def oracle(self, case, obs, top=True):
         if obs.get("handshake") != "up": return "handshake: " + str(obs.get("handshake"))
         q = case["q"]
+        snap_flags = self._snap_flags(case)
         # ---- ports: fold the notifications into a map and compare every view after every snapshot
         def judged(f):
             nos = [p["no"] for p in f]
@@ -784,9 +986,24 @@ class C17(Check):
             else:
                 if evs: return "stats:spurious: a %s message raised %s" % (m["t"], evs[0]["cls"])
                 defined = apply(m) and defined
-            if m.get("snap"):
+                if m["t"] == "status":                                 # the PortStatus handlers see the view with this notification applied
+                    ae = o.get("at_event", [])
+                    if len(ae) != 1: return "ports:event:count: port status message %d raised %d PortStatus events on the connection" % (i, len(ae))
+                    if defined and ok_feat:
+                        want = cur.get(m["port"]["no"], "IndexError")
+                        if ae[0]["keys"] != sorted(cur) or ae[0]["look"] != want:
+                            return "ports:at-event:wrong: inside the PortStatus handler of message %d ports[%d] = %s keys %s, expected %s keys %s" % (
+                                i, m["port"]["no"], ae[0]["look"], ae[0]["keys"], want, sorted(cur))
+            if snap_flags[i]:
                 f = check(next(snaps))
                 if f: return f + " (after message %d)" % i
+        if obs.get("stray"): return "stats:stray:event: an event outside the handling of any message: %s" % (obs["stray"][:1],)
+        if obs.get("mutated_later"): return "stats:event:mutated-later: the event %s handed to listeners changed afterwards" % (obs["mutated_later"],)
+        if len(obs["outs"]) != len(case["msgs"]): return "conn:closed: only %d of %d messages were handled" % (len(obs["outs"]), len(case["msgs"]))
+        if top and case.get("peer"):                                   # the second connection, judged on its own: nothing of this one may show up there
+            if "peer" not in obs: return "peer:missing: no observation of the second connection"
+            f = self.oracle(case["peer"], obs["peer"], top=False)
+            if f: return "peer:" + f
         return None
 
     def finding_key(self, case, obs, failure):
@@ -802,8 +1019,14 @@ class C17(Check):
         return changed or multi or overlap
 
     def shrink_candidates(self, case):
+        for k in ("peer", "groups", "hostile"):
+            if case.get(k):
+                c = dict(case); c.pop(k); yield c
+        if case.get("peer"):
+            for pc in self.shrink_candidates(case["peer"]):
+                c = dict(case); c["peer"] = pc; yield c
         for i in range(len(case["msgs"])):
-            c = dict(case); c["msgs"] = case["msgs"][:i] + case["msgs"][i + 1:]; yield c
+            c = dict(case); c["msgs"] = case["msgs"][:i] + case["msgs"][i + 1:]; c.pop("groups", None); yield c
         for i in range(len(case.get("early", []))):
             c = dict(case); c["early"] = case["early"][:i] + case["early"][i + 1:]; yield c
         if case.get("pre"):
